@@ -196,3 +196,8 @@ def run(ck, prog, ctx):
         reach = prog.reachable_bodies([cic.id])
         for setter, K in sorted(SETTERS.items()):
             ck.ob("KIND", "K3/" + setter, (IC + "::" + setter) in reach, "calculate_information_content %s %s" % ("reaches" if (IC + "::" + setter) in reach else "never reaches", setter), where=cic.where())
+
+    # ---- accessors: a method named after a field returns that field, not a sibling of the same type
+    ck.rule("GETTER", "an accessor `f()` / `f_mut()` of a struct with a field `f` (or its documented alias) derives its result from that field (DESIGN 3.9)")
+    from engines import check_getters
+    check_getters(ck, "GETTER", prog, r"^src/term/information_content\.rs$", floor=6)
